@@ -44,6 +44,7 @@ func main() {
 	noEvidence := flag.Bool("no-evidence", false, "do not write evidence/replay files (self-test sub-runs)")
 	verbose := flag.Bool("v", false, "print every obligation")
 	noSelfTest := flag.Bool("no-selftest", false, "thorough tier without the mutant self-test")
+	writeBaseline := flag.Bool("write-baseline", false, "record the symbols of -repo as <verif>/baseline/symbols.json (done once, on the pinned tree)")
 	flag.Parse()
 
 	if *vdir != "" {
@@ -57,6 +58,21 @@ func main() {
 	if *evdir == "" {
 		*evdir = filepath.Join(verifDir, "evidence")
 	}
+	if *writeBaseline {
+		p, err := engine.Load(engine.LoadOpts{Dir: *repo})
+		if err != nil {
+			fmt.Fprintln(os.Stderr, err)
+			os.Exit(2)
+		}
+		os.MkdirAll(filepath.Join(verifDir, "baseline"), 0o755)
+		if err := p.WriteBaseline(filepath.Join(verifDir, "baseline", "symbols.json")); err != nil {
+			fmt.Fprintln(os.Stderr, err)
+			os.Exit(2)
+		}
+		fmt.Printf("baseline written: %d functions\n", len(p.Funcs))
+		return
+	}
+	engine.BaselinePath = filepath.Join(verifDir, "baseline", "symbols.json")
 
 	if *replay != "" {
 		b, err := os.ReadFile(*replay)
@@ -159,6 +175,9 @@ func main() {
 			name = "GOARCH=" + o.GOARCH
 		}
 		fmt.Printf("loaded %s [%s]: %d files, %d functions, %d call sites\n", engine.SubjectPath, name, len(p.Files), len(p.Funcs), p.CallSites)
+		for _, a := range p.Aliases() {
+			fmt.Printf("  note: %s\n", a)
+		}
 		if len(p.Funcs) < 300 {
 			fmt.Fprintf(os.Stderr, "raftlint: only %d functions loaded; refusing to analyse a partial program\n", len(p.Funcs))
 			os.Exit(2)
@@ -371,6 +390,7 @@ func report(id string, pr *rules.Property, obs []*rules.Obligation, known []know
 			"path_edges_explored":    pathEdges,
 			"obligations_per_rule":   rulesSeen,
 			"known_findings_matched": len(knownHit),
+			"renames_recognised":     append([]string{}, p.Aliases()...),
 			"undecided":              0,
 			"checker_cmd":            "bin/raftlint -property " + id + " -tier " + tier,
 			"trusted_base":           []string{"go/types", "golang.org/x/tools/go/ssa v0.50.0", "the rule tables in /verif/lint/rules"},
